@@ -43,6 +43,7 @@ Accept(hd) ==
   LET n == hd.number  limit == (Cardinality(validators) \div 2) + 1 IN
   /\ hd.structOK                                                       \* ValidateBasic, gas bounds
   /\ (n % Epoch # 0) => hd.extra = {}                                  \* validators in extra data only on epoch headers
+  /\ (n % Epoch = 0) => hd.extra # {}                                  \* ... and an epoch header carries a non-empty list (D25)
   /\ n = number + 1 /\ hd.parentOK                                     \* direct child of the head
   /\ hd.coinbaseOK                                                     \* recovered signer = coinbase
   /\ hd.signer \in validators
